@@ -230,6 +230,9 @@ func (m *ringMonitor) observe(t *Token) {
 	case simdjson.SimPAcquire:
 		m.h = t.H
 		s := t.Arg
+		if s < 0 {
+			m.fail("M-slot", "acquire-foreign", "producer fills a buffer that is not a slot of the ring")
+		}
 		for _, b := range m.inflight {
 			if b.slot == s {
 				m.fail("M-slot", "acquire-inflight", fmt.Sprintf("producer acquired ring slot %d while buffer #%d in that slot is still in the channel (sent %d, received %d)", s, b.seq, m.sent, m.recv))
